@@ -193,7 +193,12 @@ func (t *Tr) addObl(kind, suffix string, pos token.Pos, reach, goal Term, desc s
 	return o
 }
 
-func (t *Tr) safety() bool { return t.ct != nil && t.ct.Safety }
+func (t *Tr) safety() bool {
+	if t.ct == nil || !t.ct.Safety {
+		return false
+	}
+	return len(t.ct.SafetyFor) == 0 || currentProp == "" || contains(t.ct.SafetyFor, currentProp)
+}
 
 func (t *Tr) safetyObl(kind string, pos token.Pos, goal Term, desc string) {
 	if t.safety() {
